@@ -10,7 +10,7 @@ from fractions import Fraction
 
 import z3
 
-from .values import (AList, ADict, ASet, CDict, CList, CVal, GList, I, R, B, Mat, Obj, Opaque, RangeV, Ref, Unsupported,
+from .values import (AList, ADict, ASet, CDict, CList, CVal, GList, I, R, B, Mat, MatA, Obj, Opaque, RangeV, Ref, Unsupported,
                      fresh, is_bool, is_int, is_real, is_z3, lift, numeric_join, sort_of, to_c, to_int, to_real)
 
 NOT_HANDLED = object()
@@ -626,6 +626,16 @@ def module_call(ex, qual, e, env):
         v = lg(x)
         ex.fact(z3.Implies(x > 0, z3.And(p10(v) == x, z3.Implies(x == 1, v == 0), z3.Implies(x > 1, v > 0), z3.Implies(x < 1, v < 0))))
         return v
+    if qual == "np.pad":
+        # only np.pad(A, (0, 1), "constant", constant_values=0) on an abstract square matrix: one zero row and column appended
+        v = A(0)
+        h = ex.deref(v)
+        w = A(1)
+        cv = ex.ev(kw["constant_values"], env) if "constant_values" in kw else (A(3) if len(e.args) > 3 else z3.IntVal(0))
+        zero = z3.simplify(z3.And(to_c(lift(cv)).re == 0, to_c(lift(cv)).im == 0))
+        if isinstance(h, MatA) and isinstance(w, tuple) and [ex._concrete_int(x) for x in w] == [0, 1] and z3.is_true(zero):
+            return ex.alloc(MatA(("pad0", h.term), h.dim + 1))
+        raise Unsupported("np.pad form")
     if qual == "np.conj":
         v = lift(A(0))
         if isinstance(v, CVal):
